@@ -4,4 +4,4 @@ TIE = "corr:pe"
 TIE_THEOREM = "Relic.Props.C08 (models Relic.Model.PE vs lib/authenticode)"
 UNPROVED = ["appx_resign_replaces_full (re-reading relic's own APPX output yields the same payload state; executed per op, round 2 byte for byte)"]
 IMPL_PARALLEL = 16
-install(globals(), "C08", ["pe", "e2e", "cab", "ps", "jar", "apk", "ziprw", "xsig", "deb", "appx", "pgp"])
+install(globals(), "C08", ["pe", "e2e", "cab", "ps", "jar", "apk", "ziprw", "xsig", "deb", "appx", "pgp", "macho"])
